@@ -141,6 +141,54 @@ example :
     ok [(mk .search 0 1 50 5, [⟨1, 5, [(50, 5)], some 50⟩]), (.purge 6, [⟨1, 5, [(50, 5)], some 50⟩])] = false := by
   decide
 
+/-! ### soundness of the judge (no model involved): what `ok` implies for an ARBITRARY trace -/
+
+/-- **ok_expired_sound** — for any trace whatsoever (e.g. the implementation's) that the judge accepts: right after a step
+    that is an explicit purge at `t` or a valid sighting at `t`, every device in the observed map has a valid sighting of
+    its udn earlier in the trace (that step included) whose validity `ts + max-age` is ≥ `t` — i.e. `ok` really forces "no
+    device whose validity ended before `t` remains", with validity read from the messages. -/
+theorem ok_expired_sound (a b : List (Ev σ × Snap σ)) (e : Ev σ) (after : Snap σ) (t : Int)
+    (h : ok (a ++ (e, after) :: b) = true)
+    (het : e = .purge t ∨ ∃ m, e = .msg m ∧ m.ts = t ∧ m.sighting?.isSome = true) :
+    ∀ d ∈ after, ∃ m l, Ev.msg m ∈ a.map (·.1) ++ [e] ∧ m.sighting? = some (d.udn, l) ∧ t ≤ m.ts + m.maxAge := by
+  suffices H : ∀ (a : List (Ev σ × Snap σ)) (evs0 : List (Ev σ)) (sp : Sp σ) (before : Snap σ), SpFrom evs0 sp →
+      okFrom sp before (a ++ (e, after) :: b) = true →
+      ∀ d ∈ after, ∃ m l, Ev.msg m ∈ evs0 ++ (a.map (·.1) ++ [e]) ∧ m.sighting? = some (d.udn, l) ∧
+        t ≤ m.ts + m.maxAge by
+    have := H a [] [] [] spFrom_nil h
+    simpa using this
+  intro a
+  induction a with
+  | nil =>
+    intro evs0 sp before hsp hok d hd
+    simp only [List.nil_append, okFrom, Bool.and_eq_true] at hok
+    have hsp' := spFrom_step hsp e
+    have hexp : expiredGoneOk (specStep sp e) t after = true := by
+      have h1 := hok.1
+      unfold stepOk at h1
+      simp only [Bool.and_eq_true] at h1
+      rcases het with rfl | ⟨m, rfl, rfl, hs⟩
+      · simp only [Bool.and_eq_true] at h1; exact h1.2.1
+      · cases hsi : m.sighting? with
+        | none => rw [hsi] at hs; cases hs
+        | some p => simp only [hsi] at h1; exact h1.2
+    unfold expiredGoneOk at hexp
+    rw [List.all_eq_true] at hexp
+    have hd' := hexp d hd
+    cases hg : get? (specStep sp e) d.udn with
+    | none => simp [hg] at hd'
+    | some v =>
+      obtain ⟨x, bb⟩ := v
+      simp only [hg, decide_eq_true_eq] at hd'
+      obtain ⟨m, l, hm, h1, h2⟩ := hsp'.src d.udn x bb hg
+      exact ⟨m, l, by simpa using hm, h1, by rw [h2]; exact hd'⟩
+  | cons p r ih =>
+    intro evs0 sp before hsp hok d hd
+    obtain ⟨e1, a1⟩ := p
+    simp only [List.cons_append, okFrom, Bool.and_eq_true] at hok
+    obtain ⟨m, l, hm, h1, h2⟩ := ih (evs0 ++ [e1]) (specStep sp e1) a1 (spFrom_step hsp e1) hok.2 d hd
+    exact ⟨m, l, by simpa [List.append_assoc] using hm, h1, h2⟩
+
 /-! ### the clauses of the property, stated directly on the model -/
 
 /-- **present_within_max_age** — take any history `pre ++ [m] ++ post` in which `m` is a valid sighting of `u`
